@@ -386,6 +386,12 @@ pred_find_seq::result (value_seq &haystack, value_seq &needle) const
 {
   auto const &hay = *haystack.get_seq ();
   auto const &need = *needle.get_seq ();
+  // An empty sequence is contained in any sequence.  std::search
+  // returns hay.begin () for an empty needle, which compares equal
+  // to hay.end () if the haystack is empty as well.
+  if (need.empty ())
+    return pred_result::yes;
+
   return pred_result
     (std::search (hay.begin (), hay.end (),
 		  need.begin (), need.end (),
